@@ -38,6 +38,15 @@ func runC12(w *World, r *Report) {
 	c12Order(w, r, ef, exec)
 	c12Policy(w, r, ef, exec)
 	c12Gate(w, r, ef, exec)
+	r.Rule("C12/ERR-COLLECT", "where a hook failure is collected into a list of errors instead of being returned at once, the operation's success return is reached only where that list is empty", 1)
+	errCollect(w, r, "C12/ERR-COLLECT", []string{"pkg/action"}, func(fn *ssa.Function) bool {
+		for _, c := range callInstrs(fn) {
+			if f, _ := calleeOf(c.Common()); f != nil && origin(f) == exec {
+				return true
+			}
+		}
+		return false
+	})
 	r.Rule("C12/WIRING", "DisableHooks is never fed from a differently named option and is carried into the operations started on behalf of another (upgrade --install, atomic rollback/uninstall)", 3)
 	checkWiring(w, r, "C12/WIRING", map[string]bool{"DisableHooks": true})
 	checkCarried(w, r, "C12/WIRING", []string{"DisableHooks"})
